@@ -773,3 +773,37 @@ def fam_neg(seed, n=0, dirs=("fwd", "rev")):
                 out.append({"name": "neg-first-%s-%s-%s" % (d, "clinofc" if clinofc else "clifc", fname),
                             "cfg": {"dir": d, "rawSrv": "neg", "cliNoFC": clinofc}, "steps": steps, "meta": {"family": "neg"}})
     return out
+
+
+def fam_flow(seed, n, dirs=("fwd", "rev"), caps=(0, 0, 1, 2)):
+    """flow control at tunnel level: streams of large total volume under arbitrary
+    reader pacing (random scheduling of split send/receive actors), readers that
+    stall for ever next to streams that must complete, bounded carrier capacity"""
+    rng = random.Random(seed)
+    out = []
+    pool = [0, 1, 300, payload_for_wire(CH - 1), payload_for_wire(CH), payload_for_wire(CH + 1), payload_for_wire(W - 1),
+            payload_for_wire(W), payload_for_wire(W + 1), payload_for_wire(2 * W + 1), 200000]
+    for i in range(n):
+        d = dirs[i % len(dirs)]
+        cap = caps[i % len(caps)]
+        cfg = {"dir": d}
+        if cap:
+            cfg["cap"] = cap
+        nrpc = rng.randint(1, 3)
+        rpcs = []
+        done = []
+        for r in range(1, nrpc + 1):
+            k1, k2 = rng.randint(1, 6), rng.randint(1, 6)
+            rpcs.append(rpc_script(r, "bidi", [rng.choice(pool) for _ in range(k1)], [rng.choice(pool) for _ in range(k2)], split=True))
+            done.append(r)
+        kind = rng.choice(["paced", "paced", "stalled-handler", "stalled-caller"])
+        if kind == "stalled-handler":
+            # the handler never reads: the caller's sends block once the window is full; everything else completes
+            rpcs.append({"rpc": 9, "c": {"m": [op("new", shape="bidi")] + [op("send", n=payload_for_wire(CH)) for _ in range(7)]},
+                         "s": {"m": [op("ctxwait")]}})
+        elif kind == "stalled-caller":
+            rpcs.append({"rpc": 9, "c": {"m": [op("new", shape="bidi"), op("send", n=3)]},
+                         "s": {"m": [op("recv")] + [op("send", n=payload_for_wire(CH)) for _ in range(7)] + [op("ret", code=0)]}})
+        pol = {"kind": rng.choice(["random", "random", "lazy", "slowsrv", "slowcli"]), "seed": rng.randrange(1 << 30), "max": 6000}
+        out.append(scenario("flow-%s-%s-cap%d-%d" % (kind, d, cap, i), cfg, rpcs, pol, meta={"family": "flow", "done": done}))
+    return out
